@@ -48,6 +48,22 @@ fn one(ctx: &mut Ctx, env: &Env, rng: &mut Rng, base: &Engine, rv: &RefVoice, de
     };
     let mut eh = e0.clone();
     eh.condition.set_additional_half_tone(h);
+    if idx % 5 == 3 {
+        // h is set on the condition *before* the voices' defaults are loaded into it
+        let mut c = jbonsai::Condition::default();
+        c.set_additional_half_tone(h);
+        if c.load_model(&base.voices).is_err() {
+            ctx.violation("load-model-err", J::from(descr));
+            return;
+        }
+        eh = Engine::new(base.voices.clone(), c);
+        cond.apply(&mut eh);
+        ctx.count("half_tone_set_before_load_model", 1.0);
+        if eh.condition.get_additional_half_tone() != h {
+            ctx.violation("half-tone-lost-by-load_model", J::obj().set("voice", descr).set("h", h).set("got", eh.condition.get_additional_half_tone()));
+            return;
+        }
+    }
     let labels = env.corpus.random_utterance(rng, 1, if ctx.quick() { 8 } else { 30 });
     let d = |extra: J| J::obj().set("voice", descr).set("h", h).set("cond", cond.to_json()).set("labels", J::Arr(to_strings(&labels).into_iter().take(3).map(J::Str).collect())).set("observed", extra);
     let (r0, rh) = match (trajectories(&e0, labels.clone()), trajectories(&eh, labels.clone())) {
